@@ -197,9 +197,24 @@ class CustomCorrelations(BaseCorrelations):
         """
         return self.correlation_function(tau)
 
-    @lru_cache(maxsize=2 ** 10, typed=False)
     def correlation_2d_integral(
             self,
+            delta: float,
+            time_1: float,
+            time_2: Optional[float] = None,
+            shape: Optional[Text] = 'square',
+            epsrel: Optional[float] = INTEGRATE_EPSREL,
+            subdiv_limit: Optional[int] = SUBDIV_LIMIT) -> complex:
+        """Memoized :meth:`_correlation_2d_integral` for the current
+        correlation function. """
+        return self._correlation_2d_integral(
+            self.correlation_function, delta, time_1, time_2, shape, epsrel,
+            subdiv_limit)
+
+    @lru_cache(maxsize=2 ** 10, typed=False)
+    def _correlation_2d_integral(
+            self,
+            correlation_function: Callable[[float], float],
             delta: float,
             time_1: float,
             time_2: Optional[float] = None,
@@ -409,12 +424,20 @@ class CustomSD(BaseCorrelations):
                 tmp_temperature))
         self.temperature = tmp_temperature
 
-        self._cutoff_function = \
-            lambda omega: CUTOFF_DICT[self.cutoff_type](omega, self.cutoff)
-        self._spectral_density = \
-            lambda omega: self.j_function(omega) * self._cutoff_function(omega)
-
         super().__init__(name, description)
+
+    def _cutoff_function(self, omega: ArrayLike) -> ArrayLike:
+        """The cutoff function for the current cutoff and cutoff type. """
+        return CUTOFF_DICT[self.cutoff_type](omega, self.cutoff)
+
+    def _spectral_density(self, omega: ArrayLike) -> ArrayLike:
+        """The spectral density for the current parameters. """
+        return self.j_function(omega) * self._cutoff_function(omega)
+
+    def _parameter_key(self) -> tuple:
+        """Current values of all parameters that enter the correlations. """
+        return (self.j_function, self.cutoff, self.cutoff_type,
+                self.temperature)
 
     def __str__(self) -> Text:
         ret = []
@@ -520,9 +543,21 @@ class CustomSD(BaseCorrelations):
             integral = integral.real
         return integral
 
-    @lru_cache(maxsize=2 ** 10, typed=False)
     def eta_function(
             self,
+            tau: ArrayLike,
+            epsrel: Optional[float] = INTEGRATE_EPSREL,
+            subdiv_limit: Optional[int] = SUBDIV_LIMIT,
+            matsubara: Optional[bool] = False) -> ArrayLike:
+        """Memoized :meth:`_eta_function` for the current parameter values
+        (a changed temperature, cutoff, ... must not return old results). """
+        return self._eta_function(
+            self._parameter_key(), tau, epsrel, subdiv_limit, matsubara)
+
+    @lru_cache(maxsize=2 ** 10, typed=False)
+    def _eta_function(
+            self,
+            parameter_key: tuple,
             tau: ArrayLike,
             epsrel: Optional[float] = INTEGRATE_EPSREL,
             subdiv_limit: Optional[int] = SUBDIV_LIMIT,
@@ -749,15 +784,29 @@ class PowerLawSD(CustomSD):
         self.cutoff = tmp_cutoff
 
         # use parent class for all the rest.
-        j_function = lambda w: 2.0 * self.alpha * w ** self.zeta \
-                               * self.cutoff ** (1 - zeta)
-
-        super().__init__(j_function,
+        super().__init__(self._power_law_j_function,
                          cutoff=cutoff,
                          cutoff_type=cutoff_type,
                          temperature=temperature,
                          name=name,
                          description=description)
+
+    def _power_law_j_function(self, omega: ArrayLike) -> ArrayLike:
+        """The power law spectral density (without cutoff). """
+        return 2.0 * self.alpha * omega ** self.zeta \
+            * self.cutoff ** (1 - self.zeta)
+
+    def _spectral_density(self, omega: ArrayLike) -> ArrayLike:
+        """The spectral density for the current parameters. """
+        # not via self.j_function, which stays bound to the object it was
+        # created for when this object is copied
+        return self._power_law_j_function(omega) \
+            * self._cutoff_function(omega)
+
+    def _parameter_key(self) -> tuple:
+        """Current values of all parameters that enter the correlations. """
+        return (self.alpha, self.zeta, self.cutoff, self.cutoff_type,
+                self.temperature)
 
     def __str__(self) -> Text:
         ret = []
